@@ -1039,23 +1039,23 @@ class C06(Property):
         "C06_full_history_fails",
     )]
     level_text = "proof (partial: frame theorem over all histories under the guard 'no lazy preparation of the observed class or an ancestor'; KF-C06-a open)"
-    level_note = ("PROVED for every well-formed store of the model and EVERY history of steps: WF_step / WF_run (well-formedness "
-                  "is kept by every step, raising and lazily preparing ones included — the runner's decidable re-check is now a "
-                  "cross-check), ctor_new_or_unchanged ('the returned class is new': a constructor either raises and leaves the "
-                  "store as it was, or adds exactly one class whose id is the old class count, a direct subclass of the target "
-                  "of the same kind; no old MRO changes — step_shape, mroOf_run), frame_history / frame_history_observe / "
-                  "c06_histories_partial (along any chain, a class that existed at the start keeps every attribute, list "
-                  "content and property, under the decidable guard histGuard: no step lazily prepares that class or one of "
-                  "its ancestors; lazy preparation of unrelated classes is allowed), frame_history_any / "
-                  "frame_history_noFields / preparedOf_history (NO guard, single-inheritance stores — ChainWF, kept by every "
-                  "step: every attribute other than field_schema, the properties and the user-supplied members of "
-                  "field_schema are kept along every history; the member list a class gets when prepared is the same at "
-                  "every point of every history).  One-step: frame, frame_partial, frame_observe, frame_step, frame_lazy, "
-                  "instance_local (model stores hold classes of one element kind only, so containers with compound members "
-                  "are outside it), schema_fields (Nodup + overlay), compound_fields_history_independent.  REFUTED: C06_Full "
-                  "(C06_full_fails) and C06_Full_history (C06_full_history_fails) = open finding KF-C06-a (lazy preparation "
-                  "rebinds field_schema of the prepared class and its inheriting descendants).  NOT PROVED: containers "
-                  "holding compounds (oracle only, has_model = False)")
+    level_note = ("PROVED on the model: frame / frame_history (guard lazyPrep = none resp. histGuard), frame_lazy, "
+                  "frame_history_any / frame_history_noFields (every history, lazy preparation included: everything but "
+                  "field_schema, and of field_schema the members a class is supplied with), WF_step / WF_run, "
+                  "ctor_new_or_unchanged, instance_local, schema_fields, compound_fields_history_independent / "
+                  "preparedOf_history (regeneration rule of /repo 33c5842: list identity + remembered supplied members).  "
+                  "TRUE BY CONSTRUCTION of the model (they record how the model is built, the weight is on the "
+                  "correspondence whose snapshots include list contents and list identities): instance_local (a non-compound "
+                  "instantiation has no transition that touches the store), ctor_new_or_unchanged (class_cloner always appends), "
+                  "and the list-CONTENT half of frame (the heap is append-only: the in-place mutation of a shared list, which "
+                  "is what the property fears, cannot be expressed in the model; the identity half — which list object an "
+                  "attribute is bound to — is a real statement).  REFUTED: C06_Full / C06_Full_history = KF-C06-a (open).  "
+                  "ORACLE ONLY: 'the returned class is a new direct subclass', general behavioural history independence, "
+                  "containers holding compounds (has_model = False).  OUTSIDE C06 (declared): using()/__init__ store a "
+                  "descent_validators=[…] keyword list without copying, i.e. the schema aliases the CALLER's list; the caller's "
+                  "list is not 'the schema it came from', so the property does not forbid it — the harness records where it "
+                  "happens (tag descent_validators-list-aliased-with-caller) and never mutates that list; the model allocates a "
+                  "copy, which is observationally the same as long as the caller leaves its list alone")
     technique = "Lean 4 model (class store + heap of list objects) + frame theorem by store extension; differential testing"
     trusted_base = [
         "Python's class machinery (type(), attribute lookup along a single-inheritance MRO, instance __dict__) is the "
